@@ -136,6 +136,12 @@ def problems(rng, tier):
     c7 = make_core(rng, {'a1': t7}, [(1, 1, 'a1')], [flow_for(t7)],
                    gap_model='flow', bypass_fraction=0.05, L=1.0, ncell=2)
     out.append(('regions-quarter-bounds', c7, True))
+    # a double-duct assembly: the geometry summary has rows for the gap
+    # between the ducts
+    c8 = make_core(rng, {'a1': bundle_type(2, nd=2)}, [(1, 1, 'a1')],
+                   [flow_for(bundle_type(2))], gap_model='flow',
+                   bypass_fraction=0.05, ncell=2)
+    out.append(('double-duct', c8, True))
     if tier == 'thorough':
         c4 = make_core(rng, {'a1': bundle_type(2, nd=2)}, [(1, 1, 'a1')],
                        [flow_for(bundle_type(2))], gap_model='no_flow',
@@ -196,6 +202,40 @@ def printed_tables(dassh, r, r0, u):
         tf = max(tf, abs(nums[1] - wf) / wf / 1e-6)
         tt = max(tt, abs(nums[2] - wt) / 1e-3)
         tl = max(tl, abs(nums[-1] - wl) / 1e-3)
+    # the geometry summary: every length row is the SI row in the requested
+    # length unit, every area row in its square (6 digits printed)
+    import re as _re
+    f = 1.0 / unitsys.LENGTH[u['length']]
+
+    def geo(rx):
+        t = dassh.table.GeometrySummaryTable(len(rx.asm_templates))
+        rows = {}
+        for ln in t.generate(rx).splitlines():
+            m = _re.match(r'^\s*(.*?)\s+((?:-?\d\.\d+E[-+]\d+\s*)+)$', ln)
+            if m:
+                rows[m.group(1)] = [float(x) for x in m.group(2).split()]
+        return rows
+    g1, g0 = geo(r), geo(r0)
+    for name, v0 in g0.items():
+        if 'area' in name:
+            k = 2
+        elif any(w in name for w in ('pitch', 'diameter', 'thickness', 'FTF',
+                                     'gap', ' De', '<-->', 'length')):
+            k = 1
+        else:
+            continue
+        v1 = g1.get(name)
+        if v1 is None or len(v1) != len(v0):
+            tl = 2e9
+            continue
+        for a, b in zip(v1, v0):
+            want = b * f ** k
+            if want != 0.0:
+                # folded into the length figure (relative deviation in
+                # 1e-6; six digits are printed)
+                rel = abs(a - want) / abs(want)
+                if rel > 2e-5:
+                    tl = max(tl, rel / 1e-6)
     return (int(min(tf, 2e9)), int(min(tt, 2e9)), int(min(tl, 2e9)))
 
 
